@@ -2,10 +2,11 @@ package main
 
 import (
 	"fmt"
+	"regexp/syntax"
 
-	"golang.org/x/tools/go/ssa"
 	"go/constant"
 	"go/types"
+	"golang.org/x/tools/go/ssa"
 	"strings"
 )
 
@@ -26,14 +27,14 @@ var (
 )
 
 type specCtx struct {
-	fx     *fnExec
-	cur    *state
-	old    *state
-	entry  *state // loop-entry state for entry(e)
-	names  map[string]sval
-	locals func(name string) (sval, bool) // current values of locals (loop invariants, asserts)
-	pkg    *types.Package                 // for constants / type names
-	blk    int                            // block for guarded side assumptions
+	fx      *fnExec
+	cur     *state
+	old     *state
+	entry   *state // loop-entry state for entry(e)
+	names   map[string]sval
+	locals  func(name string) (sval, bool) // current values of locals (loop invariants, asserts)
+	pkg     *types.Package                 // for constants / type names
+	blk     int                            // block for guarded side assumptions
 	ssaArgs map[string]ssa.Value
 }
 
@@ -643,6 +644,22 @@ func (c *specCtx) call(x *ECall) sval {
 		return sval{term: "(" + fx.implPred(t) + " " + v.term + ")", typ: tBool, sort: "Bool"}
 	case "noneset":
 		return sval{term: "((as const (Array Int Bool)) false)", sort: "(Array Int Bool)"}
+	case "anchoredRegexp":
+		// anchoredRegexp(param): the call argument is a constant pattern every match of which starts at
+		// the beginning of the text (decided at VC-generation time with regexp/syntax); false otherwise
+		id, ok := x.Args[0].(*EIdent)
+		if !ok || c.ssaArgs == nil {
+			panic(specErr("anchoredRegexp() needs a call argument name"))
+		}
+		res := "false"
+		if sv, ok := c.ssaArgs[id.Name]; ok {
+			if k, ok := sv.(*ssa.Const); ok && k.Value != nil && k.Value.Kind() == constant.String {
+				if patternAnchored(constant.StringVal(k.Value)) {
+					res = "true"
+				}
+			}
+		}
+		return sval{term: res, typ: tBool, sort: "Bool"}
 	case "zeropointee":
 		// zeropointee(argK): the object that the pointer boxed in interface argument argK points to is zero-valued
 		id, ok := x.Args[0].(*EIdent)
@@ -778,4 +795,32 @@ func (c *specCtx) typeExpr(e Expr) types.Type {
 		}
 	}
 	panic(specErr("not a type: %s", e))
+}
+
+// patternAnchored: every match of the pattern starts at the beginning of the text.
+func patternAnchored(pat string) bool {
+	re, err := syntax.Parse(pat, syntax.Perl)
+	if err != nil {
+		return false
+	}
+	var anch func(r *syntax.Regexp) bool
+	anch = func(r *syntax.Regexp) bool {
+		switch r.Op {
+		case syntax.OpBeginText:
+			return true
+		case syntax.OpCapture:
+			return anch(r.Sub[0])
+		case syntax.OpConcat:
+			return len(r.Sub) > 0 && anch(r.Sub[0])
+		case syntax.OpAlternate:
+			for _, s := range r.Sub {
+				if !anch(s) {
+					return false
+				}
+			}
+			return len(r.Sub) > 0
+		}
+		return false
+	}
+	return anch(re)
 }
